@@ -449,6 +449,10 @@ func GenHistory(t *testing.T, r *rand.Rand, prop, tier string, _ *atomic.Int64) 
 				op.Start, op.End = tnext, tnext
 				op.Step = 0
 			}
+			if r.Intn(6) == 0 {
+				// per-query options are for that query only
+				op.QLookbackMs = []int64{1000, 7000, 60000, 600000}[r.Intn(4)]
+			}
 			if r.Intn(8) == 0 {
 				// an instant query whose value is a matrix (bare range selector or subquery): the
 				// reference engine evaluates it and owns the point slices it returns
